@@ -11,13 +11,13 @@ package http
 //@   ensures  recompose: fullPath == path ++ ite(HasQuery(fullPath), "?" ++ query, "") ++ ite(IndexOf(fullPath, "#") >= 0, "#" ++ fragment, "")
 
 // The cookie header is split at ';' into Name=Value pairs (trimmed; anything that is not exactly
-// Name=Value is skipped; a later pair overrides an earlier one of the same name). The result is
-// described by the abstract decoding CookieHas/CookieGet; the body is not verified (strings.Split
-// and strings.TrimSpace are not modelled) — listed as an assumed contract.
+// Name=Value is skipped; a later pair overrides an earlier one of the same name): CookieHas/CookieGet
+// are defined that way over the pieces strings.Split and strings.TrimSpace return (trusted,
+// uninterpreted decompositions) and the body is verified against them.
 //@ func DecodeCookiesHeader
-//@   abstractbody
 //@   ensures  fresh: result != nil && fresh(result)
 //@   ensures  decoded: forall name string :: mapHas(result, name) == CookieHas(headerValue, name) && (mapHas(result, name) ==> result[name] == CookieGet(headerValue, name))
+//@   loop 1 invariant acc: cookies != nil && forall name string :: mapHas(cookies, name) == CookieHasK(headerValue, name, rangeindex + 1) && (mapHas(cookies, name) ==> cookies[name] == CookieGetK(headerValue, name, rangeindex + 1))
 
 //@ func BasicAuthHeader
 //@   ensures  basic: result == "Basic " ++ Base64(id ++ ":" ++ secret)
